@@ -119,6 +119,7 @@ class Scheduler:
         self.order = []
         self.by_ident = {}
         self.steps = 0
+        self.hints = 0
         self.switches = []          # [step, to] — the replayable schedule
         self.coarse = []            # (thread, memento-level function entered)
         self.deadlock = False
@@ -223,6 +224,11 @@ class Scheduler:
             self.yield_point("opcode")
         return self._trace_opcode
 
+    def hint(self):
+        """A pre-emption point placed by the workload inside a user function body (between its nested calls)."""
+        self.hints += 1
+        self.yield_point("hint")
+
     # ---- decisions
     def yield_point(self, why):
         if self.aborting:
@@ -257,6 +263,13 @@ class Scheduler:
                 to = self._replay.pop(0)[1]
                 if to in self.ts and not self.ts[to].done and self.ts[to].blocked is None:
                     return to
+            return None
+        if k == "hint":       # switch at the n-th workload hint, then run to completion
+            if self.hints == self.strategy["at_hint"] and not self.strategy.get("_done"):
+                r = self.runnable(exclude=me)
+                if r:
+                    self.strategy["_done"] = True
+                    return r[self.strategy.get("to", 0) % len(r)]
             return None
         if k == "sweep":
             if self.steps == self.strategy["at"]:
